@@ -61,6 +61,8 @@ pub fn predicate(name: &str, c: &crate::case::Case) -> bool {
             }
             false
         }
+        // C20: the point set is an exact lattice (family label assigned by the generator)
+        "c20-lattice-family" => c.family == "L",
         _ => false,
     }
 }
